@@ -281,6 +281,17 @@ func (sc *specCtx) ident(name string, subs map[string]SpecExpr) Value {
 	}
 	obj, ok := sc.lookupLocal(name)
 	if !ok {
+		// renamed since the baseline?
+		if r := sc.u.eng.renames(sc.u.fn); r != nil {
+			if nw, has := r.old2new[name]; has {
+				obj, ok = sc.lookupLocal(nw)
+				if ok {
+					sc.u.abstractions[fmt.Sprintf("contract name %q resolved to the renamed variable %q (rename repair against the baseline)", name, nw)] = true
+				}
+			}
+		}
+	}
+	if !ok {
 		sc.errorf("unknown name %q in %q (at %v valid=%v)", name, sc.c.Text, sc.u.eng.root.Fset.Position(sc.pos), sc.pos.IsValid())
 	}
 	switch o := obj.(type) {
